@@ -518,6 +518,25 @@ Definition cmtf_prog (c : cfg) : prog :=
      then [("weights", Op (Op W_ (ctx_of (Op F_ X_))) (norm (Op F_ X_)));   (* cp_normalize: weights * scales *) ("factors", Div (Op F_ X_) (Op (ctx_of (Op F_ X_)) (norm (Op F_ X_)))); ("out2", Var vE)]
      else [("weights", Op W_ (ctx_of (Op F_ X_))); ("factors", Op F_ X_); ("out2", Var vE)]).
 
+(* tensor_ring_als_sampled (_tr_als.py).  vF = the cores (one variable), vX = samples_cnt, vY = rescaling.
+   tr_decomp = random_tr(shape, rank, **context(tensor)); sampling_probs = leverage_score_dist(core) - the DOCUMENTED float64 output - or, with
+   uniform_sampling (c_alt), np.ones(shape)/shape, and samp_prob_sqrt_inv = np.prod(np.sqrt([...])), a float64 NumPy scalar;
+   sweep, per mode: samples_cnt = tl.tensor(counts, **context(tensor)); rescaling = tl.sqrt(samples_cnt / n_samples[dim]);
+     rescaling *= samp_prob_sqrt_inv[dim]   /   rescaling /= tl.sqrt(sampling_probs[n][...])
+   - IN PLACE (inplace = true, the code): the float64 operand cannot widen rescaling; written as a rebinding (inplace = false) it would;
+     sampled_design_mat = einsum(rescaling, matricize(chain of sampled cores)); sampled_tensor_unf = einsum(rescaling, tensor[samples]);
+     sol = lstsq(design, rhs)[0]; tr_decomp[dim] = transpose(reshape(sol)); sampling_probs[dim] = leverage_score_dist(transpose(sol)) *)
+Definition tr_als_sampled_prog_gen (inplace : bool) (c : cfg) : prog :=
+  let f64 := Leaf (LConst F64) in
+  let step (cur v : expr) := if inplace then Into cur v else v in
+  mkprog [(vT, In_); (vF, ctx)]
+         [(vX, Into T_ ints);
+          (vY, ToFloat (Div X_ PyI));
+          (vY, if c_alt c then step Y_ (Op Y_ f64) else step Y_ (Div Y_ (ToFloat f64)));
+          (vF, Op (Op Y_ (Op F_ F_)) (Op Y_ T_))]
+         [("*", F_)].
+Definition tr_als_sampled_prog := tr_als_sampled_prog_gen true.
+
 (* parafac2 (_parafac2.py).  vT = the slices, vF = A, B, C (one variable), vC = projections, vS = projected tensor.
    init 'random': random_parafac2(.., **context): projections = qr(tl.tensor(rng, **context)), random_cp(.., **context);
    init 'svd': A = tl.ones(..., **context), B = tl.eye(rank, **context), C = svd_interface(unfolded)[0], weights None
@@ -619,6 +638,7 @@ Definition skeleton_v (mc : bool) (c : cfg) : prog :=
   | FPermute => mkprog [(vT, In_)] [] [("weights", Op T_ T_); ("factors", Op T_ T_); ("out1", ints)]  (* cp_permute_factors: (cp tensors, permutations) *)
   | FFlipSign => mkprog [(vT, In_)] [] [("weights", RealOf T_); ("factors", Op T_ (ctx_of T_))]  (* weights = abs(weights) *)
   | FCmtf => cmtf_prog c
+  | FTrAlsSampled => tr_als_sampled_prog c
   | FMaskMul => mask_mul_prog false (c_mask c) (c_alt c)       (* the code as it is *)
   | FMaskMulCast => mask_mul_prog true (c_mask c) (c_alt c)    (* candidate repair, not (yet) the code *)
   | _ => pure_prog c
